@@ -165,6 +165,14 @@ bufferevent_readcb(evutil_socket_t fd, short event, void *arg)
 		goto error;
 	}
 
+	if (bufev_p->connecting) {
+		/* The connect has not been reported yet: let
+		 * bufferevent_writecb() finish it (and deliver
+		 * BEV_EVENT_CONNECTED or the error) before any data is
+		 * handed to the user.  The data stays readable. */
+		goto done;
+	}
+
 	input = bufev->input;
 
 	/*
